@@ -73,7 +73,14 @@ def run_case(case):
         d[key] = val
         objs.append((key, val))
     obs = []
-    for c in case["calls"]:
+    pre = case.get("pre") or [0] * len(case["calls"])
+    npost = case.get("post", 0)
+    for ci, c in enumerate(case["calls"]):
+        # the streams are USED between the updates: some draws from every stream before the call ...
+        for _ in range(pre[ci]):
+            for _k, v in objs:
+                if isinstance(v, MersenneTwister):
+                    v.next_float()
         exc = None
         try:
             if "all" in c:
@@ -85,7 +92,17 @@ def run_case(case):
                 exc = "returned:" + repr(ret)
         except Exception as e:  # noqa
             exc = type(e).__name__
-        obs.append({"seeds": seeds_of([v for _, v in objs]), "exc": exc})
+        # ... and the first draws of every stream after it
+        after = []
+        for _k, v in objs:
+            if isinstance(v, MersenneTwister) and npost:
+                try:
+                    after.append([v.next_float().hex() for _ in range(npost)])
+                except Exception as e:  # noqa
+                    after.append("raise:" + type(e).__name__)
+            else:
+                after.append(None)
+        obs.append({"seeds": seeds_of([v for _, v in objs]), "exc": exc, "draws": after})
     # the fallback updater alone, on fresh copies, for every accepted replication number
     fb_expect = []
     if case["updater"]["kind"] == "table":
